@@ -184,6 +184,8 @@ class C05(ProgramCheck):
             ctx.outcome("raised")
             ctx.fail("fill-raises", "%s: %s (model: valid, %r)" % (type(ex).__name__, ex, want))
             return
+        if ovd != dict(ov):
+            ctx.fail("override-dict-modified", "the caller's override dictionary %r became %r" % (dict(ov), ovd))
         ctx.outcome("filled" if ov else "filled-no-override")
         ctx.transition()
         where = find_constant(f)
